@@ -715,6 +715,7 @@ func TestConfig(t *testing.T) {
 			}
 			r.rejectCases(sec, raw0)
 			r.pathCases(sec, pathSets, save0, full)
+			r.historyCases(sec, raw0, save0, kept)
 		}
 	}
 	if only == "" {
@@ -1064,6 +1065,116 @@ func (r *run) subsetCases(full tree, save0s map[string]tree, injs map[string][]*
 		nm += len(k)
 	}
 	r.res.Set("markers_in_full_file", nm)
+}
+
+// historyCases: by now hundreds of different files went through this component in this process. The result
+// of Default() and of loading a file must not depend on that history, nor on what an object loaded before.
+func (r *run) historyCases(sec section, raw0 []byte, save0 tree, kept []caseInfo) {
+	// settings whose default differs from one Default() to the next (the generated cluster secret)
+	volatile := [][]string{}
+	d := func() tree {
+		c := sec.mk()
+		c.Default()
+		b, _ := c.ToJSON()
+		t, _ := parse(b)
+		return t
+	}
+	d1, d2 := d(), d()
+	all := map[string][]string{}
+	leaves(d1, nil, all)
+	for _, p := range all {
+		a, _ := get(d1, p)
+		b, _ := get(d2, p)
+		if canon(a) != canon(b) {
+			volatile = append(volatile, p)
+		}
+	}
+	strip := func(t tree) string {
+		if t == nil {
+			return "<nil>"
+		}
+		c := clone(t).(tree)
+		for _, p := range volatile {
+			set(c, p, nil, true)
+		}
+		return canon(c)
+	}
+	// A: a rich file - every kept (setting, class) that still loads together with the ones before it
+	a := clone(save0).(tree)
+	seen := map[string]bool{}
+	for _, k := range kept {
+		if seen[k.name] {
+			continue
+		}
+		try := clone(a).(tree)
+		set(try, k.path, k.v, false)
+		b, _ := json.Marshal(try)
+		if l := loadAlone(sec, b); l.outcome == "accepted" && l.saved != nil {
+			a = try
+			seen[k.name] = true
+		}
+	}
+	rawA, _ := json.Marshal(a)
+	emit := func(seq, outcome string, same bool, detail string) {
+		r.emit(fact{"fact": "history", "section": sec.name, "seq": seq, "outcome": outcome, "same": same, "detail": detail})
+		r.res.Case(fact{"section": sec.name, "history": seq}, true)
+	}
+	saveOf := func(c config.ComponentConfig) tree {
+		var raw []byte
+		if err, p := guard(func() error { var e error; raw, e = c.ToJSON(); return e }); err != nil || p {
+			return nil
+		}
+		t, _ := parse(raw)
+		return t
+	}
+	diff := func(x, y tree) string {
+		if x == nil || y == nil {
+			return "not saved"
+		}
+		ps := map[string][]string{}
+		leaves(x, nil, ps)
+		leaves(y, nil, ps)
+		out := []string{}
+		for n, p := range ps {
+			a, _ := get(x, p)
+			b, _ := get(y, p)
+			if canon(a) != canon(b) {
+				out = append(out, fmt.Sprintf("%s: %s vs %s", n, canon(a), canon(b)))
+			}
+		}
+		sort.Strings(out)
+		if len(out) > 4 {
+			out = out[:4]
+		}
+		return strings.Join(out, "; ")
+	}
+	// first load of A (reference for "load-twice")
+	la := loadAlone(sec, rawA)
+	// 1. Default() on a fresh object
+	{
+		c := sec.mk()
+		err, p := guard(c.Default)
+		t := saveOf(c)
+		emit("default-after-loads", outcomeOf(err, p), strip(t) == strip(save0), diff(t, save0))
+	}
+	// 2. the default file on a fresh object
+	{
+		l := loadAlone(sec, raw0)
+		emit("load-default-file-after-loads", l.outcome, l.saved != nil && canon(l.saved) == canon(save0), diff(l.saved, save0)+l.err)
+	}
+	// 3. A, then the default file, on ONE object
+	{
+		c := sec.mk()
+		guard(func() error { return c.LoadJSON(rawA) })
+		err, p := guard(func() error { return c.LoadJSON(raw0) })
+		t := saveOf(c)
+		emit("reload-on-used-object", outcomeOf(err, p), t != nil && canon(t) == canon(save0), diff(t, save0))
+	}
+	// 4. A again, after something else
+	{
+		l := loadAlone(sec, rawA)
+		emit("load-twice", l.outcome, la.saved != nil && l.saved != nil && canon(l.saved) == canon(la.saved), diff(l.saved, la.saved)+l.err)
+	}
 }
 
 type pathSetting struct {
